@@ -13,7 +13,7 @@ import hashlib
 import json
 from pathlib import Path
 
-from .. import common, genrun, specgen
+from .. import common, genrun, richgen, specgen
 from ..common import Ctx
 
 LEVEL = "exploration"
@@ -211,6 +211,12 @@ def run_shard(ctx: Ctx) -> None:
     for b in range(total):
         d = specgen.generate(ctx.rng, prof={"ops": (2, 5), "schemas": (3, 6), "p_stream": 0.1, "opid_shapes": True})
         run_doc(ctx, d, ctx.shard * 1000 + b)
+    # schema-centred documents (nested containers, nullable anything, named maps / aliases): same invariance
+    for b in range(2 if ctx.quick else 30):
+        # trigger class (recorded finding): arrays without a name of their own whose items need a class
+        allow = {"anonymous_array_items"} if ctx.rng.random() < 0.3 else set()
+        run_doc(ctx, richgen.generate(ctx.rng, allow=allow), ctx.shard * 1000 + 500 + b)
+        ctx.rec.count("rich_documents")
 
 
 def replay(ctx: Ctx, file: dict) -> None:
